@@ -252,6 +252,8 @@ def run(ctx):
             elif j[0] == "simple":
                 key = "C11:%s:%s:%s:%s" % (j[1]["sub"], j[1]["engine"], r.kind, cls)
                 ctx.violation(key, r.detail[-3000:], j[1])
+            elif j[0] == "tla":
+                ctx.violation("C11:model-conformance:%s:%s:%s" % (r.kind, cls, j[2]), r.detail[-3000:], c10.describe(j))
             else:
                 at = lc.announced(r.detail) or ("op " + lc.hist_str(j[3]))
                 d = c10.describe(j)
